@@ -84,13 +84,23 @@ New ==
 
 \* Message.UnmarshalText on an arbitrary wire text: the first event's fields, or an error
 FromText(s) ==
-    /\ Len(msgs) < MaxMsgs
+    /\ Len(msgs) < MaxMsgs /\ ~AnyTarget
     /\ LET r == Unmarshal(s)
            m == [NewMessage EXCEPT !.id = r.m.id, !.type = r.m.type, !.retry = IF r.m.retryDigits = <<>> THEN "zero" ELSE "ms1"]
            a == AppendChunks(m, arrays, r.m.val)
        IN /\ msgs' = Append(msgs, a.m) /\ arrays' = a.as
           /\ Rec([op |-> "fromtext", i |-> Len(msgs) + 1, s |-> s, route |-> "", j |-> 0, err |-> ~r.ok, panic |-> FALSE])
     /\ nops' = Append(nops, 0) /\ napp' = Append(napp, 0)
+
+\* Message.UnmarshalText on an existing member: its fields are overwritten, nobody else's
+Refill(i, s) ==
+    /\ AnyTarget /\ CanOp(i)
+    /\ LET r == Unmarshal(s)
+           m == [NewMessage EXCEPT !.id = r.m.id, !.type = r.m.type, !.retry = IF r.m.retryDigits = <<>> THEN "zero" ELSE "ms1"]
+           a == AppendChunks(m, arrays, r.m.val)       \* value semantics: fresh storage
+       IN /\ msgs' = [msgs EXCEPT ![i] = a.m] /\ arrays' = a.as
+          /\ Rec([op |-> "refill", i |-> i, s |-> s, route |-> "", j |-> 0, err |-> ~r.ok, panic |-> FALSE])
+    /\ Bump(i)
 
 AppendText(i, s, cm) ==
     /\ CanOp(i) /\ napp[i] < MaxAppends
@@ -134,6 +144,7 @@ Next ==
           \/ \E s \in CommentStrs : AppendText(i, s, TRUE)
           \/ \E r \in Routes : (\E s \in IdStrs : SetID(i, r, s)) \/ (r # "header" /\ \E s \in TypeStrs : SetType(i, r, s))
           \/ \E c \in RetryClasses : SetRetry(i, c)
+          \/ \E s \in TextStrs : Refill(i, s)
     \/ \E j \in 1..Len(msgs) : Clone(j)
 
 Spec == Init /\ [][Next]_vars
